@@ -1,5 +1,5 @@
 \* scenario generation (pods focus): the slice Hash % GenMod = GenRes of the pods grid (fixed price table, pod sizes /
 \* selectors / eviction cost / room on the remaining node)
-CONSTANTS NTypes = 3  Prices = {1}  ZMods = {"same"}  MaxCands = 2  MinS2S = 2  Focus = "pods"  Weak = ""  GenMod = 20  GenRes = 0
+CONSTANTS NTypes = 3  Prices = {1}  ZMods = {"same"}  MaxCands = 2  MinS2S = 2  Focus = "pods"  UnavCTs = {}  Weak = ""  GenMod = 20  GenRes = 0
 SPECIFICATION GenSpec
 INVARIANTS GenPrint
